@@ -842,6 +842,9 @@ impl<'r, 'gc> Cb<'r, 'gc> {
                 self.ptrs.insert(hm.target, p);
             }
         } else if tf.is_some() || contains || !fetch_panics {
+            if hm.a != a {
+                self.ex.viol("C20", "M-frame", format!("set {} of arena {} accepted handle h{} of ANOTHER arena ({}): try_fetch ok {}, contains {}, fetch panicked {}", set, a, h, hm.a, tf.is_some(), contains, fetch_panics));
+            }
             self.ex.viol(
                 "C14",
                 "M-roots",
